@@ -11,6 +11,14 @@
    under/over-payment, mismatching totals, bit-flipped / foreign / missing secrets, expired registrations,
    keysend, disconnections, claims and fails around the advertised deadline).
 3. TLC validates every recorded run against PayRecv.tla (PayRecvTrace.tla).
+4. Onion fields and amounts: PayRecvMCfld / PayRecvMCmeta enumerate, for <= 3 parts in every order, custom TLVs of
+   even / odd type present in all / only the first / only a later / the middle part or with differing values, a
+   payment_metadata that is the registration's, absent or foreign, and the answer claim_funds /
+   claim_funds_with_known_custom_tlvs; PayRecvMCskim enumerates a last forwarding node that skims a fee off one part
+   and reports nothing / one less / exactly / more than the shortfall (or a fee it did not take), with and without
+   accept_underpaying_htlcs. The engine sends every part with its own RecipientOnionFields, lets a real intercepting
+   node skim (forward_intercepted_htlc) and sets the skimmed_fee_msat TLV handed to the recipient. Design models with
+   a planted defect (spec mutants) must be refuted by TLC.
 """
 import pay_common as pc
 
@@ -94,14 +102,123 @@ def _underpaid(r, k, recs):
         return [r]
 
 
+def _claimables(recs, run):
+    return [x for x in recs if x["run"] == run and x["ev"] == "event" and x.get("kind") == "PaymentClaimable"]
+
+
+def _skimmed_plus_one(r, k, recs):
+    if r["ev"] == "event" and r.get("kind") == "PaymentClaimable" and r.get("skimmed", 0) > 0:
+        r["skimmed"] += 1
+        return [r]
+
+
+def _even_tlv_dropped_from_one_part(r, k, recs):
+    # two parts that agree on an even TLV and are shown together: one of them no longer carries it
+    if r["ev"] == "send" and r["res"] == "ok" and any(t[0] % 2 == 0 for t in r.get("tlvs", [])):
+        sends = [x for x in recs if x["run"] == r["run"] and x["ev"] == "send" and x["res"] == "ok"]
+        cl = _claimables(recs, r["run"])
+        if len(sends) == 2 and len(cl) == 1 and len(cl[0]["via"]) == 2 and sends[0]["tlvs"] == sends[1]["tlvs"] and _single(recs, r["run"]):
+            r["tlvs"] = [t for t in r["tlvs"] if t[0] % 2 == 1]
+            return [r]
+
+
+def _tlv_invented(r, k, recs):
+    if r["ev"] == "event" and r.get("kind") == "PaymentClaimable" and r.get("tlvs"):
+        r["tlvs"] = r["tlvs"] + [[70003, 1]]
+        return [r]
+
+
+def _opt_in_removed(r, k, recs):
+    if r["ev"] == "open" and r.get("underpay") and any(c.get("skimmed", 0) > 0 and _run_has(recs, r["run"], lambda x: x["ev"] == "send" and any(
+            q["amt"] < q["oamt"] for q in x["parts"])) for c in _claimables(recs, r["run"])):
+        r["underpay"] = []
+        return [r]
+
+
+def _reported_skim_lowered(r, k, recs):
+    # an under-paying part that was accepted: the previous hop reported one msat less than it kept
+    if r["ev"] == "deliver" and r["kind"] == "update_add_htlc" and r.get("skim", 0) > 0 and _single(recs, r["run"]):
+        sends = [x for x in recs if x["run"] == r["run"] and x["ev"] == "send" and x["res"] == "ok" and x["dst"] == r["to"]]
+        short = [q["oamt"] - q["amt"] for x in sends for q in x["parts"] if q["amt"] == r["amt"] and q["oamt"] > q["amt"]]
+        cl = _claimables(recs, r["run"])
+        if len(sends) == 1 and short and r["skim"] == short[0] and cl and cl[0]["node"] == r["to"] and cl[0]["skimmed"] == r["skim"]:
+            r["skim"] -= 1
+            return [r]
+
+
+def _even_run(recs, run):
+    cl = _claimables(recs, run)
+    return _single(recs, run) and any(t[0] % 2 == 0 for t in cl[0].get("tlvs", [])) and \
+        sum(1 for x in recs if x["run"] == run and x["ev"] in ("claim", "failback")) == 1
+
+
+def _plain_claim_as_known(r, k, recs):
+    # claim_funds met an even custom TLV and failed the payment back: pretend the user had vouched for the TLVs
+    if r["ev"] == "claim" and not r["known"] and _even_run(recs, r["run"]) \
+            and r["height"] < _claimables(recs, r["run"])[0]["deadline"] \
+            and _run_has(recs, r["run"], lambda x: x["ev"] == "msg" and x["kind"] == "update_fail_htlc" and x["from"] == r["node"]):
+        r["known"] = True
+        return [r]
+
+
+def _known_claim_as_plain(r, k, recs):
+    if r["ev"] == "claim" and r["known"] and _even_run(recs, r["run"]) \
+            and _run_has(recs, r["run"], lambda x: x["ev"] == "msg" and x["kind"] == "update_fulfill_htlc" and x["from"] == r["node"]):
+        r["known"] = False
+        return [r]
+
+
+def _metadata_foreign(r, k, recs):
+    if r["ev"] == "send" and r["res"] == "ok" and not r["keysend"] and r["sreg"] == 1 and r.get("meta", 0) == 1 and _claimables(recs, r["run"]) \
+            and _single(recs, r["run"]):
+        r["meta"] = 2
+        return [r]
+
+
+def _onion_amount_raised(r, k, recs):
+    # what the sender meant the recipient to get was one msat more than what arrived (no opt-in anywhere)
+    if r["ev"] == "send" and r["res"] == "ok" and not r["keysend"] and r["sreg"] == 1 and _claimables(recs, r["run"]) and _single(recs, r["run"]) \
+            and _run_has(recs, r["run"], lambda x: x["ev"] == "open" and not x.get("underpay")):
+        r["parts"][0]["oamt"] += 1
+        return [r]
+
+
 SELFTESTS = [("claimable-amount-plus-one", _amt_plus_one), ("deadline-plus-one", _deadline_plus_one),
              ("one-part-failed-others-fulfilled", _fulfil_as_fail), ("registration-dropped", _reg_dropped),
              ("secret-not-issued", _secret_corrupted), ("claimed-amount-minus-one", _claimed_minus_one),
-             ("bad-part-never-failed", _fail_dropped), ("registered-amount-not-reached", _underpaid)]
+             ("bad-part-never-failed", _fail_dropped), ("registered-amount-not-reached", _underpaid),
+             ("claimable-skimmed-fee-plus-one", _skimmed_plus_one), ("even-tlv-missing-in-one-part", _even_tlv_dropped_from_one_part),
+             ("claimable-tlv-invented", _tlv_invented), ("underpaying-opt-in-removed", _opt_in_removed),
+             ("reported-skim-one-less-than-shortfall", _reported_skim_lowered), ("plain-claim-with-even-tlv-as-known", _plain_claim_as_known),
+             ("known-claim-with-even-tlv-as-plain", _known_claim_as_plain), ("payment-metadata-foreign", _metadata_foreign),
+             ("sender-intended-amount-plus-one", _onion_amount_raised)]
+
+
+EVCLASS = {"e1": "e1", "e1o1": "e1", "e1b": "e1b", "e1e2": "e1e2", "e2": "e2", "o1e2": "oe2", "mnone": "mn", "mflip": "mf"}
 
 
 def pick(got, rng):
-    return got
+    """Stratified choice of the behaviours to execute: grouped by what the parts disagree about and in which order
+    (even TLVs / metadata per part, skim class, secret, total, CLTV class), the channel opt-in and the last step;
+    the groups are served round-robin."""
+    groups = {}
+    for s in got:
+        parts = tuple((EVCLASS.get(o.get("f", "none"), "-"), o.get("sk", "no"), o["sec"], o["tot"] != s["regamt"], o["cl"])
+                      for o in s["ops"] if o["op"] == "part")
+        last = s["ops"][-1]
+        key = (parts, s.get("up", False), last["op"], last.get("kind", ""))
+        groups.setdefault(key, []).append(s)
+    keys = sorted(groups, key=repr)
+    rng.shuffle(keys)
+    for k in keys:
+        rng.shuffle(groups[k])
+    order, depth = [], 0
+    while len(order) < len(got):
+        for k in keys:
+            if depth < len(groups[k]):
+                order.append(groups[k][depth])
+        depth += 1
+    return {"must": order, "rest": []}
 
 
 # Recorded finding (not part of the default runs, see `assumptions`): a first complete set is failed back,
@@ -120,12 +237,18 @@ def run(tier, seed):
     thorough = tier == "thorough"
     return pc.run_check(
         "C04", tier, seed,
-        mc_cfgs=["PayRecvMC.cfg", "PayRecvMCcltv.cfg"] if not thorough else ["PayRecvMC.cfg", "PayRecvMCcltvT.cfg", "PayRecvMC3.cfg"],
+        mc_cfgs=["PayRecvMC.cfg", "PayRecvMCcltv.cfg", "PayRecvMCfld.cfg", "PayRecvMCskim.cfg", "PayRecvMCmeta.cfg", "PayRecvMCmeta0.cfg"] if not thorough
+        else ["PayRecvMC.cfg", "PayRecvMCcltvT.cfg", "PayRecvMC3.cfg", "PayRecvMCfldT.cfg", "PayRecvMCskimT.cfg", "PayRecvMCmeta.cfg", "PayRecvMCmeta0.cfg"],
+        mc_mutants=["PayRecvMCfld_mut_evenLater.cfg", "PayRecvMCfld_mut_evenValue.cfg", "PayRecvMCfld_mut_claimEven.cfg",
+                    "PayRecvMCskim_mut_skimNoOptIn.cfg", "PayRecvMCskim_mut_skimUncovered.cfg", "PayRecvMCskim_mut_intendedShown.cfg"],
         compile_fn=pc.compile_recv_script,
         random_fn=pc.random_recv_script,
-        n_tlc=8000 if thorough else 900, n_rand=12000 if thorough else 900,
+        n_tlc=16000 if thorough else 2400, n_rand=16000 if thorough else 1500,
         need={"ev_PaymentClaimable": 100, "ev_PaymentClaimed": 50, "claim": 50, "failback": 20, "msg_update_fail_htlc": 100,
-              "msg_update_fulfill_htlc": 50, "tick": 50, "block": 50, "quiet": 100},
+              "msg_update_fulfill_htlc": 50, "tick": 50, "block": 50, "quiet": 100,
+              "send_with_tlvs": 200, "claimable_with_tlvs": 50, "claimable_with_even_tlv": 30, "claim_known": 30, "send_skimmed_part": 100,
+              "add_with_skimmed_fee": 100, "claimable_skimmed": 30, "runs_with_underpay_channels": 100, "ev_HTLCIntercepted": 100,
+              "send_foreign_metadata": 10, "claimable_with_metadata": 10},
         selftests=SELFTESTS, pick=pick, probes=PROBES,
         assumptions=pc.COMMON_ASSUMPTIONS + [
             "the HMAC inside a payment secret is not modelled: the driver produces concrete secrets of each class (issued "
@@ -135,4 +258,11 @@ def run(tier, seed):
             "the same hash is a recorded finding, see the report)",
             "an expired registration must be refused only when the best header time is more than the documented two hours "
             "past its expiry; a part whose secret commits to less than total_msat may be accepted or failed",
+            "onion fields: custom TLV values are 4-byte integers, types 65536..70001; the skimmed_fee_msat TLV handed to the "
+            "recipient is set by the harness on the wire (it is not covered by the commitment signatures), the amount that is "
+            "missing is really kept by an intercepting LDK node; counterparty_skimmed_fee_msat of PaymentClaimable is required "
+            "to be the sum of the fees the previous hops reported (events/mod.rs), also when no channel has opted in",
+            "PaymentClaimable.onion_fields: the custom TLVs shown must be carried with that value by every part, contain every "
+            "even one, and be all the common ones when the set is everything the node has seen for the hash; an odd TLV that "
+            "differs between parts may be dropped or the part refused (both accepted)",
         ])
